@@ -1,5 +1,6 @@
 import Syzgy.Lemmas.LexProg
 import Syzgy.Lemmas.ParseSpec
+import Syzgy.Lemmas.ParseSim
 /-!
 # The lexer on spelled-out token sequences
 -/
@@ -558,5 +559,553 @@ theorem lexAt_string {L : Bytes} {q : Nat} (s rest : Bytes) (hs : ∀ c ∈ s, c
   simp only [lexAt, hch, readString, hl, hq]
   simp [strText]
   omega
+
+/-! ## every token of the language from its spelling -/
+
+def tokText (t : Token) : Bytes := if t.type = .string then strText t.lit else t.lit
+
+/-- tokens whose spelling the lexer reads back: word-like tokens whose type is what the keyword table says,
+    decimal literals, string literals without NUL, the punctuation of the language -/
+def Lexable (t : Token) : Prop :=
+  match t.type with
+  | .string => ∀ c ∈ t.lit, c ≠ 0
+  | .number => NumLit t.lit
+  | .doesNotExist => t.lit = [68, 79, 69, 83, 32, 78, 79, 84, 32, 69, 88, 73, 83, 84]
+  | .leftParen => t.lit = [40]
+  | .rightParen => t.lit = [41]
+  | .comma => t.lit = [44]
+  | .rightBracket => t.lit = [93]
+  | .dot => t.lit = [46]
+  | .leftBracket => t.lit = [91]
+  | .greater => t.lit = [62]
+  | .less => t.lit = [60]
+  | .equal => t.lit = [61, 61]
+  | .notEqual => t.lit = [33, 61]
+  | .greaterEqual => t.lit = [62, 61]
+  | .lessEqual => t.lit = [60, 61]
+  | .identifier | .and | .or | .not | .in | .exists | .contains | .startsWith | .endsWith | .matches | .boolean | .null =>
+    Word t.lit ∧ t.lit ≠ [68, 79, 69, 83] ∧ lookupIdentifier t.lit = t.type
+  | _ => False
+
+theorem lex_token {L : Bytes} {q : Nat} (t : Token) (rest : Bytes) (hl : Lexable t) (h : L.drop q = tokText t ++ rest)
+    (hd : Delim rest) : lexAt (ofList L) q = .ok (t, q + (tokText t).length) := by
+  obtain ⟨ty, lit⟩ := t
+  have word : Word lit ∧ lit ≠ [68, 79, 69, 83] ∧ lookupIdentifier lit = ty → tokText ⟨ty, lit⟩ = lit →
+      lexAt (ofList L) q = .ok (⟨ty, lit⟩, q + (tokText ⟨ty, lit⟩).length) := by
+    intro ⟨hw, hdoes, hty⟩ ht
+    rw [ht] at h ⊢
+    rw [lexAt_word lit rest h hw hd hdoes, hty]
+  cases ty <;> simp only [Lexable] at hl
+  case string =>
+    have ht : tokText ⟨.string, lit⟩ = strText lit := by simp [tokText]
+    rw [ht] at h ⊢
+    exact lexAt_string lit rest hl h
+  case number =>
+    have ht : tokText ⟨.number, lit⟩ = lit := by simp [tokText]
+    rw [ht] at h ⊢
+    exact lexAt_number lit rest hl h hd
+  case doesNotExist =>
+    subst hl
+    have ht : tokText ⟨.doesNotExist, [68, 79, 69, 83, 32, 78, 79, 84, 32, 69, 88, 73, 83, 84]⟩ = [68, 79, 69, 83, 32, 78, 79, 84, 32, 69, 88, 73, 83, 84] := by simp [tokText]
+    rw [ht] at h ⊢
+    exact lexAt_doesNotExist rest h hd
+  case leftParen => subst hl; exact lexAt_one 40 .leftParen rest (by simpa [tokText] using h) (by simp)
+  case rightParen => subst hl; exact lexAt_one 41 .rightParen rest (by simpa [tokText] using h) (by simp)
+  case comma => subst hl; exact lexAt_one 44 .comma rest (by simpa [tokText] using h) (by simp)
+  case rightBracket => subst hl; exact lexAt_one 93 .rightBracket rest (by simpa [tokText] using h) (by simp)
+  case dot => subst hl; exact lexAt_one 46 .dot rest (by simpa [tokText] using h) (by simp)
+  case leftBracket => subst hl; exact lexAt_one_delim 91 .leftBracket rest (by simpa [tokText] using h) hd (by simp)
+  case greater => subst hl; exact lexAt_one_delim 62 .greater rest (by simpa [tokText] using h) hd (by simp)
+  case less => subst hl; exact lexAt_one_delim 60 .less rest (by simpa [tokText] using h) hd (by simp)
+  case equal => subst hl; exact lexAt_two 61 .equal rest (by simpa [tokText] using h) (by simp)
+  case notEqual => subst hl; exact lexAt_two 33 .notEqual rest (by simpa [tokText] using h) (by simp)
+  case greaterEqual => subst hl; exact lexAt_two 62 .greaterEqual rest (by simpa [tokText] using h) (by simp)
+  case lessEqual => subst hl; exact lexAt_two 60 .lessEqual rest (by simpa [tokText] using h) (by simp)
+  all_goals exact word hl (by simp [tokText])
+
+theorem lexable_head (t : Token) (hl : Lexable t) : ∃ c r, tokText t = c :: r ∧ isWs c = false := by
+  obtain ⟨ty, lit⟩ := t
+  have word : Word lit → tokText ⟨ty, lit⟩ = lit → ∃ c r, tokText ⟨ty, lit⟩ = c :: r ∧ isWs c = false := by
+    intro ⟨⟨c, r, e, hc⟩, _⟩ ht
+    refine ⟨c, r, by rw [ht, e], ?_⟩
+    cases hw : isWs c with
+    | false => rfl
+    | true => rw [isLetter_of_ws_false hw] at hc; cases hc
+  cases ty <;> simp only [Lexable] at hl
+  case string => exact ⟨34, esc lit ++ [34], by simp [tokText, strText], by decide⟩
+  case number =>
+    obtain ⟨ds1, ds2, hne, h1, _, e⟩ := hl
+    obtain ⟨d, ds1', rfl⟩ := List.exists_cons_of_ne_nil hne
+    have hd : isDigit d = true := h1 d (by simp)
+    have hws : isWs d = false := by
+      cases hw : isWs d with
+      | false => rfl
+      | true => rw [isDigit_of_ws_false hw] at hd; cases hd
+    rcases e with e | e <;> subst e
+    · exact ⟨d, ds1', by simp [tokText], hws⟩
+    · exact ⟨d, ds1' ++ 46 :: ds2, by simp [tokText], hws⟩
+  case doesNotExist => subst hl; exact ⟨68, [79, 69, 83, 32, 78, 79, 84, 32, 69, 88, 73, 83, 84], rfl, by decide⟩
+  case leftParen => subst hl; exact ⟨40, [], rfl, by decide⟩
+  case rightParen => subst hl; exact ⟨41, [], rfl, by decide⟩
+  case comma => subst hl; exact ⟨44, [], rfl, by decide⟩
+  case rightBracket => subst hl; exact ⟨93, [], rfl, by decide⟩
+  case dot => subst hl; exact ⟨46, [], rfl, by decide⟩
+  case leftBracket => subst hl; exact ⟨91, [], rfl, by decide⟩
+  case greater => subst hl; exact ⟨62, [], rfl, by decide⟩
+  case less => subst hl; exact ⟨60, [], rfl, by decide⟩
+  case equal => subst hl; exact ⟨61, [61], rfl, by decide⟩
+  case notEqual => subst hl; exact ⟨33, [61], rfl, by decide⟩
+  case greaterEqual => subst hl; exact ⟨62, [61], rfl, by decide⟩
+  case lessEqual => subst hl; exact ⟨60, [61], rfl, by decide⟩
+  all_goals exact word hl.1 (by simp [tokText])
+
+/-! ## a whole text -/
+
+/-- a spelled-out token sequence: every token preceded by white space -/
+def spell : List (Bytes × Token) → Bytes
+  | [] => []
+  | (ws, t) :: r => ws ++ tokText t ++ spell r
+
+theorem spell_append (a b : List (Bytes × Token)) : spell (a ++ b) = spell a ++ spell b := by
+  induction a with
+  | nil => rfl
+  | cons x xs ih => obtain ⟨ws, t⟩ := x; simp [spell, ih]
+
+/-- white space is white space, tokens are lexable, and every token but the first is separated from its
+    predecessor by at least one white-space character -/
+def SpellOK (items : List (Bytes × Token)) : Prop :=
+  ∀ pre ws t post, items = pre ++ (ws, t) :: post → isWsList ws ∧ Lexable t ∧ (pre ≠ [] → ws ≠ [])
+
+/-- lexer position in front of the white space that precedes token `i` (= right behind token `i - 1`); behind the
+    last token: the end of the text -/
+def posOf (items : List (Bytes × Token)) (trail : Bytes) (i : Nat) : Nat :=
+  if i ≤ items.length then (spell (items.take i)).length else (spell items ++ trail).length
+
+theorem delim_of_ws (ws rest : Bytes) (hws : isWsList ws) (hne : ws ≠ []) : Delim (ws ++ rest) := by
+  obtain ⟨c, r, rfl⟩ := List.exists_cons_of_ne_nil hne
+  exact Or.inr ⟨c, r ++ rest, rfl, hws c (by simp)⟩
+
+theorem delim_trail (trail : Bytes) (h : isWsList trail) : Delim trail := by
+  cases trail with
+  | nil => exact Or.inl rfl
+  | cons c r => exact Or.inr ⟨c, r, rfl, h c (by simp)⟩
+
+/-- **the lexer on a spelled-out token sequence** serves exactly those tokens, then end-of-input for ever -/
+theorem lexes (items : List (Bytes × Token)) (trail : Bytes) (hok : SpellOK items) (htrail : isWsList trail) :
+    SimSrc (nextToken (ofList (spell items ++ trail))) (listSrc (items.map (·.2))) (posOf items trail) := by
+  intro p
+  simp only [listSrc]
+  rw [nextToken_eq_lexAt]
+  by_cases hp : p < items.length
+  · -- token p
+    obtain ⟨pre, x, post, hsplit, hlen⟩ : ∃ pre x post, items = pre ++ x :: post ∧ pre.length = p :=
+      ⟨items.take p, items[p], items.drop (p + 1), by simp, by simp; omega⟩
+    obtain ⟨ws, t⟩ := x
+    obtain ⟨hws, hlex, hsep⟩ := hok pre ws t post hsplit
+    have htake : items.take p = pre := by rw [hsplit, ← hlen]; simp
+    have htake1 : items.take (p + 1) = pre ++ [(ws, t)] := by
+      rw [hsplit, ← hlen]; simp [List.take_append, List.take_of_length_le]
+    have hpos : posOf items trail p = (spell pre).length := by simp [posOf, Nat.le_of_lt hp, htake]
+    have hpos1 : posOf items trail (p + 1) = (spell pre).length + ws.length + (tokText t).length := by
+      simp [posOf, Nat.succ_le_of_lt hp, htake1, spell_append, spell]; omega
+    have htok : ((items.map (·.2)).drop p).headD eofTok = t := by
+      rw [hsplit, ← hlen]; simp
+    have hdrop : (spell items ++ trail).drop (spell pre).length = ws ++ (tokText t ++ (spell post ++ trail)) := by
+      rw [hsplit, spell_append, List.append_assoc, List.drop_left]
+      simp [spell, List.append_assoc]
+    obtain ⟨c, r, hc, hcws⟩ := lexable_head t hlex
+    have hskip := skipWs_of_drop ws (tokText t ++ (spell post ++ trail)) hdrop hws
+      (Or.inr ⟨c, r ++ (spell post ++ trail), by rw [hc]; rfl, hcws⟩)
+    have hdrop2 : (spell items ++ trail).drop ((spell pre).length + ws.length) = tokText t ++ (spell post ++ trail) :=
+      drop_add_of ws _ hdrop
+    have hdelim : Delim (spell post ++ trail) := by
+      cases post with
+      | nil => simpa [spell] using delim_trail trail htrail
+      | cons y ys =>
+        obtain ⟨ws2, t2⟩ := y
+        obtain ⟨hws2, _, hsep2⟩ := hok (pre ++ [(ws, t)]) ws2 t2 ys (by rw [hsplit]; simp)
+        have : spell ((ws2, t2) :: ys) ++ trail = ws2 ++ (tokText t2 ++ spell ys ++ trail) := by simp [spell, List.append_assoc]
+        rw [this]
+        exact delim_of_ws ws2 _ hws2 (hsep2 (by simp))
+    rw [hpos, hskip, lex_token t _ hlex hdrop2 hdelim, htok, hpos1]
+  · -- end of input
+    have hge : items.length ≤ p := Nat.le_of_not_lt hp
+    have htok : ((items.map (·.2)).drop p).headD eofTok = eofTok := by
+      rw [List.drop_eq_nil_of_le (by simpa using hge)]; rfl
+    have hpos1 : posOf items trail (p + 1) = (spell items ++ trail).length := by
+      simp only [posOf]; rw [if_neg (by omega)]
+    rw [htok, hpos1]
+    by_cases hpe : p = items.length
+    · have hpos : posOf items trail p = (spell items).length := by simp [posOf, hpe]
+      have hdrop : (spell items ++ trail).drop (spell items).length = trail ++ [] := by simp
+      have hskip := skipWs_of_drop trail [] hdrop htrail (Or.inl rfl)
+      have hend : (spell items ++ trail).drop ((spell items).length + trail.length) = [] := by
+        rw [List.drop_eq_nil_of_le (by simp)]
+      rw [hpos, hskip, lexAt_eof hend]
+      simp
+    · have hpos : posOf items trail p = (spell items ++ trail).length := by
+        simp only [posOf]; rw [if_neg (by omega)]
+      have hdrop : (spell items ++ trail).drop (spell items ++ trail).length = [] ++ [] := by simp
+      have hskip := skipWs_of_drop [] [] hdrop (by intro c hc; cases hc) (Or.inl rfl)
+      have hend : (spell items ++ trail).drop ((spell items ++ trail).length + ([] : Bytes).length) = [] := by
+        rw [List.drop_eq_nil_of_le (by simp)]
+      rw [hpos, hskip, lexAt_eof hend]
+      simp
+
+/-! ## from the text of an expression to its tree -/
+
+theorem posOf_zero (items : List (Bytes × Token)) (trail : Bytes) : posOf items trail 0 = 0 := by
+  simp [posOf, spell]
+
+/-- the parser on a spelled-out token sequence = the parser on the tokens -/
+theorem parse_spelled (items : List (Bytes × Token)) (trail : Bytes) (hok : SpellOK items) (htrail : isWsList trail)
+    (nok : NumOK) :
+    parse (ofList (spell items ++ trail)) nok =
+      parseSrc (listSrc (items.map (·.2))) nok (parseFuel (spell items ++ trail).length) := by
+  unfold parse
+  rw [size_ofList]
+  exact parseSrc_sim _ _ nok (posOf items trail) (lexes items trail hok htrail) (posOf_zero items trail) _
+
+theorem tokText_ne_nil (t : Token) (hl : Lexable t) : 1 ≤ (tokText t).length := by
+  obtain ⟨c, r, e, _⟩ := lexable_head t hl
+  rw [e]; simp
+
+theorem spell_length_tail (items : List (Bytes × Token)) (h : ∀ x ∈ items, Lexable x.2 ∧ x.1 ≠ []) :
+    2 * items.length ≤ (spell items).length := by
+  induction items with
+  | nil => simp
+  | cons x xs ih =>
+    obtain ⟨ws, t⟩ := x
+    obtain ⟨hlex, hws⟩ := h (ws, t) (by simp)
+    have h1 := tokText_ne_nil t hlex
+    have h2 : 1 ≤ ws.length := by
+      cases ws with
+      | nil => exact absurd rfl hws
+      | cons c r => simp
+    have := ih (fun x hx => h x (by simp [hx]))
+    simp only [spell, List.length_append, List.length_cons]
+    omega
+
+theorem spell_length (items : List (Bytes × Token)) (hok : SpellOK items) : 2 * items.length ≤ (spell items).length + 1 := by
+  cases items with
+  | nil => simp
+  | cons x xs =>
+    obtain ⟨ws, t⟩ := x
+    obtain ⟨_, hlex, _⟩ := hok [] ws t xs rfl
+    have h1 := tokText_ne_nil t hlex
+    have := spell_length_tail xs (by
+      intro y hy
+      obtain ⟨a, b, e⟩ := List.append_of_mem hy
+      obtain ⟨ws', t'⟩ := y
+      obtain ⟨_, hl', hs'⟩ := hok ((ws, t) :: a) ws' t' b (by rw [e]; rfl)
+      exact ⟨hl', hs' (by simp)⟩)
+    simp only [spell, List.length_append, List.length_cons]
+    omega
+
+theorem Path.steps_length (p : Path) : 2 * p.nsteps ≤ p.steps.length := by
+  induction p <;> simp [Path.nsteps, Path.steps] <;> omega
+
+theorem Expr.need_le_toks (e : Expr) (prec : Nat) : e.need ≤ 20 * (e.toks prec).length := by
+  induction e generalizing prec with
+  | cmp op p l => have := p.steps_length; simp [Expr.need, Expr.toks, Path.toks]; omega
+  | strop op p s => have := p.steps_length; simp [Expr.need, Expr.toks, Path.toks]; omega
+  | inList p items =>
+    have := p.steps_length
+    have hi : items.length ≤ (itemsToks items).length + 1 := by
+      induction items with
+      | nil => simp
+      | cons x xs ih => cases xs <;> simp [itemsToks] at ih ⊢ <;> omega
+    simp [Expr.need, Expr.toks, Path.toks]; omega
+  | notInList p items =>
+    have := p.steps_length
+    have hi : items.length ≤ (itemsToks items).length + 1 := by
+      induction items with
+      | nil => simp
+      | cons x xs ih => cases xs <;> simp [itemsToks] at ih ⊢ <;> omega
+    simp [Expr.need, Expr.toks, Path.toks]; omega
+  | «exists» p => have := p.steps_length; simp [Expr.need, Expr.toks, Path.toks]; omega
+  | notExists p => have := p.steps_length; simp [Expr.need, Expr.toks, Path.toks]; omega
+  | and a b iha ihb =>
+    have := iha 1; have := ihb 2
+    simp only [Expr.need, Expr.toks, paren]
+    split <;> simp <;> omega
+  | or a b iha ihb =>
+    have := iha 0; have := ihb 1
+    simp only [Expr.need, Expr.toks, paren]
+    split <;> simp <;> omega
+  | not a ih =>
+    have := ih 0
+    simp [Expr.need, Expr.toks]; omega
+
+/-- **text → tree**: any spelling of the canonical token sequence of an expression — arbitrary white space
+    (spaces, tabs, newlines) between the tokens, before the first and behind the last — parses to the
+    documented tree `e.ast`; lexer, lazy token pulling, parser and the final end-of-input check included -/
+theorem parse_text (nok : NumOK) (e : Expr) (he : e.OK nok) (items : List (Bytes × Token)) (trail : Bytes)
+    (htoks : items.map (·.2) = e.toks 0) (hok : SpellOK items) (htrail : isWsList trail) :
+    parse (ofList (spell items ++ trail)) nok = .ok e.ast := by
+  rw [parse_spelled items trail hok htrail nok, htoks]
+  apply parse_canonical nok e he
+  have h1 := e.need_le_toks 0
+  have h2 := spell_length items hok
+  have h3 : items.length = (e.toks 0).length := by rw [← htoks]; simp
+  simp only [parseFuel, List.length_append]
+  omega
+
+/-! ## which expressions can be spelled -/
+
+/-- a field name: a word that is neither a keyword nor `DOES` -/
+def IsName (n : Bytes) : Prop := Word n ∧ n ≠ [68, 79, 69, 83] ∧ lookupIdentifier n = .identifier
+
+def Path.Lex : Path → Prop
+  | .field n => IsName n
+  | .dot p n => p.Lex ∧ IsName n
+  | .index p lit => p.Lex ∧ NumLit lit
+  | .length p => p.Lex
+
+def Lit.Lex : Lit → Prop
+  | .num lit => NumLit lit
+  | .str s => ∀ c ∈ s, c ≠ 0
+  | .bool _ => True
+  | .null => True
+
+/-- field names are names, number literals are decimal literals, strings contain no NUL byte -/
+def Expr.Lex : Expr → Prop
+  | .cmp _ p l => p.Lex ∧ l.Lex
+  | .strop _ p s => p.Lex ∧ ∀ c ∈ s, c ≠ 0
+  | .inList p items => p.Lex ∧ ∀ l ∈ items, l.Lex
+  | .notInList p items => p.Lex ∧ ∀ l ∈ items, l.Lex
+  | .exists p => p.Lex
+  | .notExists p => p.Lex
+  | .and a b => a.Lex ∧ b.Lex
+  | .or a b => a.Lex ∧ b.Lex
+  | .not a => a.Lex
+
+theorem word_of_list (w : Bytes) (h : (match w with | c :: _ => isLetter c | [] => false) = true) (h2 : w.all idc = true) : Word w := by
+  cases w with
+  | nil => simp at h
+  | cons c r => exact ⟨⟨c, r, rfl, h⟩, fun x hx => List.all_eq_true.mp h2 x hx⟩
+
+theorem lexable_kw (ty : TokType) (w : Bytes) (hw : (match w with | c :: _ => isLetter c | [] => false) = true)
+    (h2 : w.all idc = true) (hd : w ≠ [68, 79, 69, 83]) (hl : lookupIdentifier w = ty)
+    (hty : ty = .identifier ∨ ty = .and ∨ ty = .or ∨ ty = .not ∨ ty = .in ∨ ty = .exists ∨ ty = .contains ∨ ty = .startsWith ∨
+      ty = .endsWith ∨ ty = .matches ∨ ty = .boolean ∨ ty = .null) : Lexable (tk ty w) := by
+  have hword := word_of_list w hw h2
+  rcases hty with e | e | e | e | e | e | e | e | e | e | e | e <;> subst e <;> exact ⟨hword, hd, hl⟩
+
+theorem lexable_name (n : Bytes) (h : IsName n) : Lexable (tk .identifier n) := h
+
+theorem Path.steps_lexable (p : Path) (h : p.Lex) : ∀ t ∈ p.steps, Lexable t := by
+  induction p with
+  | field n => intro t ht; simp [Path.steps] at ht
+  | dot p n ih =>
+    intro t ht
+    simp only [Path.steps, List.mem_append, List.mem_cons, List.not_mem_nil, or_false] at ht
+    rcases ht with ht | rfl | rfl
+    · exact ih h.1 t ht
+    · show Lexable (tk .dot [46]); simp [Lexable, tk]
+    · exact lexable_name n h.2
+  | index p lit ih =>
+    intro t ht
+    simp only [Path.steps, List.mem_append, List.mem_cons, List.not_mem_nil, or_false] at ht
+    rcases ht with ht | rfl | rfl | rfl
+    · exact ih h.1 t ht
+    · show Lexable (tk .leftBracket [91]); simp [Lexable, tk]
+    · show Lexable (tk .number lit); simp only [Lexable, tk]; exact h.2
+    · show Lexable (tk .rightBracket [93]); simp [Lexable, tk]
+  | length p ih =>
+    intro t ht
+    simp only [Path.steps, List.mem_append, List.mem_cons, List.not_mem_nil, or_false] at ht
+    rcases ht with ht | rfl | rfl
+    · exact ih h t ht
+    · show Lexable (tk .dot [46]); simp [Lexable, tk]
+    · exact lexable_kw .identifier _ (by decide) (by decide) (by decide) (by decide) (by simp)
+
+theorem Path.root_name (p : Path) (h : p.Lex) : IsName p.root := by
+  induction p with
+  | field n => exact h
+  | dot p n ih => exact ih h.1
+  | index p lit ih => exact ih h.1
+  | length p ih => exact ih h
+
+theorem Path.toks_lexable (p : Path) (h : p.Lex) : ∀ t ∈ p.toks, Lexable t := by
+  intro t ht
+  simp only [Path.toks, List.mem_cons] at ht
+  rcases ht with rfl | ht
+  · exact lexable_name _ (p.root_name h)
+  · exact p.steps_lexable h t ht
+
+theorem Lit.tok_lexable (l : Lit) (h : l.Lex) : Lexable l.tok := by
+  cases l with
+  | num lit => show Lexable (tk .number lit); simp only [Lexable, tk]; exact h
+  | str s => show Lexable (tk .string s); simp only [Lexable, tk]; exact h
+  | bool b =>
+    cases b
+    · exact lexable_kw .boolean _ (by decide) (by decide) (by decide) (by decide) (by simp)
+    · exact lexable_kw .boolean _ (by decide) (by decide) (by decide) (by decide) (by simp)
+  | null => exact lexable_kw .null _ (by decide) (by decide) (by decide) (by decide) (by simp)
+
+theorem Cmp.tok_lexable (op : Cmp) : Lexable op.tok := by
+  cases op <;> simp [Cmp.tok, Lexable, tk]
+
+theorem StrOp.tok_lexable (op : StrOp) : Lexable op.tok := by
+  cases op
+  · exact lexable_kw .contains _ (by decide) (by decide) (by decide) (by decide) (by simp)
+  · exact lexable_kw .startsWith _ (by decide) (by decide) (by decide) (by decide) (by simp)
+  · exact lexable_kw .endsWith _ (by decide) (by decide) (by decide) (by decide) (by simp)
+  · exact lexable_kw .matches _ (by decide) (by decide) (by decide) (by decide) (by simp)
+
+theorem itemsToks_lexable (items : List Lit) (h : ∀ l ∈ items, l.Lex) : ∀ t ∈ itemsToks items, Lexable t := by
+  induction items with
+  | nil => intro t ht; simp [itemsToks] at ht
+  | cons x xs ih =>
+    intro t ht
+    cases xs with
+    | nil =>
+      simp only [itemsToks, List.mem_cons, List.not_mem_nil, or_false] at ht
+      subst ht; exact x.tok_lexable (h x (by simp))
+    | cons y ys =>
+      simp only [itemsToks, List.mem_cons] at ht
+      rcases ht with rfl | rfl | ht
+      · exact x.tok_lexable (h x (by simp))
+      · show Lexable (tk .comma [44]); simp [Lexable, tk]
+      · exact ih (fun l hl => h l (by simp [hl])) t ht
+
+theorem Expr.toks_lexable (e : Expr) (h : e.Lex) (prec : Nat) : ∀ t ∈ e.toks prec, Lexable t := by
+  have hlp : Lexable lp := by simp [lp, Lexable, tk]
+  have hrp : Lexable rp := by simp [rp, Lexable, tk]
+  have kAND : Lexable (tk .and b!"AND") := lexable_kw .and _ (by decide) (by decide) (by decide) (by decide) (by simp)
+  have kOR : Lexable (tk .or b!"OR") := lexable_kw .or _ (by decide) (by decide) (by decide) (by decide) (by simp)
+  have kNOT : Lexable (tk .not b!"NOT") := lexable_kw .not _ (by decide) (by decide) (by decide) (by decide) (by simp)
+  have kIN : Lexable (tk .in b!"IN") := lexable_kw .in _ (by decide) (by decide) (by decide) (by decide) (by simp)
+  have kEX : Lexable (tk .exists b!"EXISTS") := lexable_kw .exists _ (by decide) (by decide) (by decide) (by decide) (by simp)
+  have kDNE : Lexable (tk .doesNotExist b!"DOES NOT EXIST") := by simp [Lexable, tk]
+  have kLB : Lexable (tk .leftBracket b!"[") := by simp [Lexable, tk]
+  have kRB : Lexable (tk .rightBracket b!"]") := by simp [Lexable, tk]
+  induction e generalizing prec with
+  | cmp op p l =>
+    intro t ht
+    simp only [Expr.toks, List.mem_append, List.mem_cons, List.not_mem_nil, or_false] at ht
+    rcases ht with ht | rfl | rfl
+    · exact p.toks_lexable h.1 t ht
+    · exact op.tok_lexable
+    · exact l.tok_lexable h.2
+  | strop op p s =>
+    intro t ht
+    simp only [Expr.toks, List.mem_append, List.mem_cons, List.not_mem_nil, or_false] at ht
+    rcases ht with ht | rfl | rfl
+    · exact p.toks_lexable h.1 t ht
+    · exact op.tok_lexable
+    · show Lexable (tk .string s); simp only [Lexable, tk]; exact h.2
+  | inList p items =>
+    intro t ht
+    simp only [Expr.toks, List.mem_append, List.mem_cons, List.not_mem_nil, or_false] at ht
+    rcases ht with ((ht | rfl | rfl) | ht) | rfl
+    · exact p.toks_lexable h.1 t ht
+    · exact kIN
+    · exact kLB
+    · exact itemsToks_lexable items h.2 t ht
+    · exact kRB
+  | notInList p items =>
+    intro t ht
+    simp only [Expr.toks, List.mem_append, List.mem_cons, List.not_mem_nil, or_false] at ht
+    rcases ht with ((ht | rfl | rfl | rfl) | ht) | rfl
+    · exact p.toks_lexable h.1 t ht
+    · exact kNOT
+    · exact kIN
+    · exact kLB
+    · exact itemsToks_lexable items h.2 t ht
+    · exact kRB
+  | «exists» p =>
+    intro t ht
+    simp only [Expr.toks, List.mem_append, List.mem_cons, List.not_mem_nil, or_false] at ht
+    rcases ht with ht | rfl
+    · exact p.toks_lexable h t ht
+    · exact kEX
+  | notExists p =>
+    intro t ht
+    simp only [Expr.toks, List.mem_append, List.mem_cons, List.not_mem_nil, or_false] at ht
+    rcases ht with ht | rfl
+    · exact p.toks_lexable h t ht
+    · exact kDNE
+  | and a b iha ihb =>
+    intro t ht
+    simp only [Expr.toks, paren] at ht
+    split at ht
+    · simp only [List.mem_cons, List.mem_append, List.not_mem_nil, or_false] at ht
+      rcases ht with rfl | ((ht | rfl) | ht) | rfl
+      · exact hlp
+      · exact iha h.1 1 t ht
+      · exact kAND
+      · exact ihb h.2 2 t ht
+      · exact hrp
+    · simp only [List.mem_cons, List.mem_append, List.not_mem_nil, or_false] at ht
+      rcases ht with (ht | rfl) | ht
+      · exact iha h.1 1 t ht
+      · exact kAND
+      · exact ihb h.2 2 t ht
+  | or a b iha ihb =>
+    intro t ht
+    simp only [Expr.toks, paren] at ht
+    split at ht
+    · simp only [List.mem_cons, List.mem_append, List.not_mem_nil, or_false] at ht
+      rcases ht with rfl | ((ht | rfl) | ht) | rfl
+      · exact hlp
+      · exact iha h.1 0 t ht
+      · exact kOR
+      · exact ihb h.2 1 t ht
+      · exact hrp
+    · simp only [List.mem_cons, List.mem_append, List.not_mem_nil, or_false] at ht
+      rcases ht with (ht | rfl) | ht
+      · exact iha h.1 0 t ht
+      · exact kOR
+      · exact ihb h.2 1 t ht
+  | not a ih =>
+    intro t ht
+    simp only [Expr.toks, List.mem_append, List.mem_cons, List.not_mem_nil, or_false] at ht
+    rcases ht with ((rfl | rfl) | ht) | rfl
+    · exact kNOT
+    · exact hlp
+    · exact ih h 0 t ht
+    · exact hrp
+
+/-- the canonical spelling: tokens separated by single spaces -/
+def sepItems : List Token → List (Bytes × Token)
+  | [] => []
+  | t :: r => ([], t) :: r.map (fun t => ([32], t))
+
+theorem sepItems_toks (l : List Token) : (sepItems l).map (·.2) = l := by
+  cases l with
+  | nil => rfl
+  | cons t r => simp [sepItems, Function.comp_def]
+
+theorem sepItems_ok (l : List Token) (h : ∀ t ∈ l, Lexable t) : SpellOK (sepItems l) := by
+  intro pre ws t post e
+  cases l with
+  | nil => simp [sepItems] at e
+  | cons t0 r =>
+    simp only [sepItems] at e
+    cases pre with
+    | nil =>
+      simp only [List.nil_append, List.cons.injEq, Prod.mk.injEq] at e
+      obtain ⟨⟨rfl, rfl⟩, _⟩ := e
+      exact ⟨(by intro c hc; cases hc), h _ (by simp), fun hh => absurd rfl hh⟩
+    | cons p0 ps =>
+      simp only [List.cons_append, List.cons.injEq] at e
+      obtain ⟨_, e2⟩ := e
+      have hm : (ws, t) ∈ r.map (fun t => (([32] : Bytes), t)) := by rw [e2]; simp
+      obtain ⟨t', ht', e3⟩ := List.mem_map.mp hm
+      simp only [Prod.mk.injEq] at e3
+      obtain ⟨rfl, rfl⟩ := e3
+      exact ⟨(by intro c hc; simp at hc; subst hc; decide), h _ (by simp [ht']), fun _ => by simp⟩
+
+/-- the canonical text of an expression: its canonical tokens separated by single spaces -/
+def Expr.text (e : Expr) : Bytes := spell (sepItems (e.toks 0))
+
+/-- **`BuildFilter`'s parse of the canonical text of any spellable expression is the documented tree** -/
+theorem parse_canonical_text (nok : NumOK) (e : Expr) (he : e.OK nok) (hl : e.Lex) :
+    parse (ofList e.text) nok = .ok e.ast := by
+  have := parse_text nok e he (sepItems (e.toks 0)) [] (sepItems_toks _) (sepItems_ok _ (e.toks_lexable hl 0))
+    (by intro c hc; cases hc)
+  simpa [Expr.text] using this
 
 end Syzgy.Query
